@@ -459,8 +459,9 @@ def handleSmall (side op : String) (args : List Bytes) : Option String :=
   | "M", "msgflags", [a, b, u, l] => some (optHex (Model.msgflags (subdirOf a) (subdirOf b) ⟨asNat u, asNat l⟩))
   | "S", "msgflags", [a, b, u, l] =>
     some (optHex (some (Spec.flagSuffix (Spec.adjustSeen (a == [110]) (b == [110]) (Proofs.lettersOf ⟨asNat u, asNat l⟩)))))
-  | "M", "pslice", [path, siz, beg, e] => some (optHex (Model.pathslice path (asNat siz) (asInt beg) (asInt e)))
-  | "M", "pjoin", [siz, d, f] => some (optHex (Model.pathjoin (asNat siz) d f))
+  -- the limit-parametrised setters of Model/Limits.lean at the buffer size of the request (C18: `pathsliceL path (.fin n) = pathslice path n`)
+  | "M", "pslice", [path, siz, beg, e] => some (optHex (Model.pathsliceL path (.fin (asNat siz)) (asInt beg) (asInt e)))
+  | "M", "pjoin", [siz, d, f] => some (optHex (Model.pathjoinL (.fin (asNat siz)) d f))
   -- dest <root> <sub> <name> <action>*: an action is `m<maildir>`, `f<subdir>` or `F<letters>`
   | "S", "dest", root :: sub :: _ :: acts =>
     (acts.mapM pathAction).map fun as => s!"{if Spec.destOK as then 1 else 0} {toHex (Spec.destPath (root, sub) as)}"
